@@ -236,6 +236,30 @@ def norm(x):
 # z3 accounting
 
 _Z3 = {"checks": 0, "time": 0.0, "unknown": 0}
+_REALIZE = {"n": 0, "where": {}}
+
+
+def _instrument_realize():
+    """Count CrossHair value realisations (a symbolic value enumerated one concrete value at a time).
+    Sound but a sign that some operation is not modelled symbolically (silent enumeration)."""
+    import traceback
+
+    from crosshair.statespace import StateSpace
+
+    if getattr(StateSpace, "_sx_wrapped", False):
+        return
+    orig = StateSpace.find_model_value
+
+    def find_model_value(self, expr):
+        _REALIZE["n"] += 1
+        if _REALIZE["n"] <= 2000:
+            fr = [f for f in traceback.extract_stack(limit=14) if "/crosshair/" not in f.filename and "/sx/engine.py" not in f.filename]
+            key = ";".join(f"{f.filename.rsplit('/', 1)[-1]}:{f.lineno}" for f in fr[-2:])
+            _REALIZE["where"][key] = _REALIZE["where"].get(key, 0) + 1
+        return orig(self, expr)
+
+    StateSpace.find_model_value = find_model_value
+    StateSpace._sx_wrapped = True
 
 
 def _instrument_z3():
@@ -286,6 +310,8 @@ class ShardResult:
     errors: list = dataclasses.field(default_factory=list)
     nontrivial_keys: int = 0
     stop_reason: str = ""
+    realizations: int = 0
+    realization_sites: dict = dataclasses.field(default_factory=dict)
 
 
 def run_concrete(scenario: Callable, witness: list) -> Outcome | None:
@@ -323,7 +349,10 @@ def explore(
 
     models.apply()
     _instrument_z3()
+    _instrument_realize()
     z0 = dict(_Z3)
+    r0 = _REALIZE["n"]
+    _REALIZE["where"] = {}
 
     options = DEFAULT_OPTIONS.overlay(AnalysisOptionSet(per_path_timeout=per_path_timeout))
     res = ShardResult()
@@ -443,6 +472,8 @@ def explore(
     res.z3_time = _Z3["time"] - z0["time"]
     res.z3_unknown = _Z3["unknown"] - z0["unknown"]
     res.nontrivial_keys = len(nontrivial)
+    res.realizations = _REALIZE["n"] - r0
+    res.realization_sites = dict(sorted(_REALIZE["where"].items(), key=lambda kv: -kv[1])[:8])
     if res.paths_failed:
         res.verdict = "refuted"
     elif res.divergences or res.errors:
